@@ -295,10 +295,14 @@ func (rs *RelationService) EndTxn() {
 }
 
 func (rs *RelationService) Close() error {
-	if err := rs.wal.close(); err != nil {
-		return err
+	// the store is shut down (flush timer stopped, pages flushed, data file
+	// closed) whatever closing the log reports
+	walErr := rs.wal.close()
+	fsErr := rs.fs.close()
+	if walErr != nil {
+		return walErr
 	}
-	return rs.fs.close()
+	return fsErr
 }
 
 func OpenRelation(dbName string, forceWALSync bool) (*RelationService, error) {
